@@ -285,8 +285,26 @@ def jitter_lib():
     return os.path.realpath(out)
 
 
-def stress_run(binary, setup, threads, jitter, timeout=60):
-    """one untraced run to its natural end; returns (status, {cell: [rho, vx, vy, vz, P]} or None, log tail)"""
+def read_snapshot(path, setup):
+    """{cell: [rho, vx, vy, vz, P]} of a Gadget snapshot written by the code (harness/c10_snap.cpp), or None"""
+    rc, out, err = vlib.run_exe(SNAP_TOOL[0], "", args=[path])
+    data = {}
+    for l in out.split("\n"):
+        w = l.split()
+        if len(w) > 3:
+            data[w[0]] = (int(w[1]), int(w[2]), [vlib.bits2f(x) for x in w[3:]])
+    if any(k not in data for k in ("Coordinates", "Density", "Velocities", "Pressure")):
+        return None
+    state = {}
+    for i in range(data["Coordinates"][0]):
+        X = tuple(round(data["Coordinates"][2][3 * i + k] * setup["ncell"][k] / setup["box"][k] - 0.5) for k in range(3))
+        state[X] = [data["Density"][2][i]] + data["Velocities"][2][3 * i:3 * i + 3] + [data["Pressure"][2][i]]
+    return state
+
+
+def stress_run(binary, setup, threads, jitter, timeout=60, want_first=False):
+    """one untraced run to its natural end; returns (status, {cell: [rho, vx, vy, vz, P]} or None, log tail)
+    (+ the state of the first snapshot, t = 0, when want_first)"""
     import os
     import shutil
     import tempfile
@@ -302,29 +320,20 @@ def stress_run(binary, setup, threads, jitter, timeout=60):
             env["LD_PRELOAD"] = JITTER_LIB[0]
             env["CMAC_VERIF_JITTER10"] = jitter
         res = simrun.run_sim(binary, setup["param"], ["--task-based-rhd"], threads=threads, timeout=timeout, trace=False, env=env, workdir=d)
+        extra = (None,) if want_first else ()
         if res["timed_out"]:
-            return "hang", None, res["log"][-400:]
+            return ("hang", None, res["log"][-400:]) + extra
         if res["rc"] != 0:
-            return "crash(%s)" % res["rc"], None, res["log"][-400:]
+            return ("crash(%s)" % res["rc"], None, res["log"][-400:]) + extra
         snaps = sorted(f for f in os.listdir(d) if f.startswith("snap") and f.endswith(".hdf5"))
         if not snaps:
-            return "no-snapshot", None, res["log"][-400:]
-        rc, out, err = vlib.run_exe(SNAP_TOOL[0], "", args=[os.path.join(d, snaps[-1])])
-        data = {}
-        for l in out.split("\n"):
-            w = l.split()
-            if len(w) > 3:
-                data[w[0]] = (int(w[1]), int(w[2]), [vlib.bits2f(x) for x in w[3:]])
-        need = ("Coordinates", "Density", "Velocities", "Pressure")
-        if any(k not in data for k in need):
-            return "bad-snapshot", None, out[:300]
-        n = data["Coordinates"][0]
-        state = {}
-        for i in range(n):
-            X = tuple(round(data["Coordinates"][2][3 * i + k] * setup["ncell"][k] / setup["box"][k] - 0.5) for k in range(3))
-            state[X] = [data["Density"][2][i]] + data["Velocities"][2][3 * i:3 * i + 3] + [data["Pressure"][2][i]]
+            return ("no-snapshot", None, res["log"][-400:]) + extra
+        state = read_snapshot(os.path.join(d, snaps[-1]), setup)
+        if state is None:
+            return ("bad-snapshot", None, "") + ((None,) if want_first else ())
+        first = read_snapshot(os.path.join(d, snaps[0]), setup) if want_first else None
         steps = sum(1 for l in res["log"].split("\n") if "Starting hydro step " in l)
-        return "ok:%d" % steps, state, ""
+        return ("ok:%d" % steps, state, "") + ((first,) if want_first else ())
     finally:
         shutil.rmtree(d, ignore_errors=True)
 
@@ -397,6 +406,73 @@ def stress_stream(ctx, binary, nsetups, njit):
                               % (threads, jitter, where[0], where[1], where[3], where[2], w, STRESS_TOL, tag), rep)
 
 
+def restart_twins(ctx, binary, ntwins):
+    """one thread, same input: a run to its natural end against the same run stopped after k steps
+    (`--number-of-steps k`, restart dump after every step) and continued with `--restart .`; the final
+    snapshots the code writes must agree bit for bit.  (Stop / restart as such is C09's property; this twin only
+    extends "one thread => bit-for-bit reproducible" to a state that went through dump and restore.)"""
+    import os
+    import shutil
+    import tempfile
+    rng = ctx.rng
+    if JITTER_LIB[0] is None:
+        JITTER_LIB[0] = jitter_lib()
+        SNAP_TOOL[0] = vlib.build_harness("c10_snap")
+    stream = ctx.cov["correspondence_streams"].setdefault("restart-twins", {"lines": 0, "mismatches": 0, "oracle_failures": 0})
+    for _ in range(ntwins):
+        layout = rng.choice([(2, 2, 2), (2, 1, 2), (1, 2, 2), (2, 2, 1)])
+        cells = rng.choice([(3, 3, 3), (4, 3, 2), (2, 4, 3)])
+        per = (True, True, True)
+        g = rng.choice(c04.GAMMAS[:4])
+        ncell = [layout[a] * cells[a] for a in range(3)]
+        box = (1., 1., 1.)
+        states = c04.initial_state(rng, ncell, "negjump", g, per)
+        param = c04.make_param(layout, per, cells, g, states, box=box, total_time=3.e-5).replace("  type: AsciiFile", "  type: Gadget") \
+            .replace("  output interval: 100000. s", "  output interval: 0. s")
+        setup = dict(param=param, blocks=c04.block_density(ncell, box, states), ncell=ncell, box=box)
+        k = rng.choice([1, 2, 3, 5])
+        tag = "layout %s cells/subgrid %s gamma %.4g, stopped after step %d" % (layout, cells, g, k)
+        rep = dict(layout=layout, cells=cells, per=per, g=g, ncell=ncell, box=box, param=param, blocks=setup["blocks"], restart_twin=True, k=k,
+                   cmd="CMacIonize --params run.param --task-based-rhd --threads 1   vs   ... --number-of-steps %d ; ... --restart ." % k)
+        root = tempfile.mkdtemp(prefix="verif_c10r_")
+        try:
+            finals = {}
+            for name, seq in (("uninterrupted", [[]]), ("restarted", [["--number-of-steps", str(k)], ["--restart", "."]])):
+                d = os.path.join(root, name)
+                os.makedirs(d)
+                with open(os.path.join(d, "blocks.yml"), "w") as f:
+                    f.write(setup["blocks"])
+                bad = None
+                for args in seq:
+                    res = simrun.run_sim(binary, param, ["--task-based-rhd"] + args, threads=1, timeout=90, trace=False, workdir=d)
+                    ctx.count()
+                    if res["timed_out"] or res["rc"] != 0:
+                        bad = "%s run (%s) ended with status %s: %s" % (name, " ".join(args) or "to the end", "timeout" if res["timed_out"] else res["rc"], res["log"][-300:])
+                        break
+                if bad:
+                    ctx.violation("restart-twin:run-failed", bad + " (" + tag + ")", rep)
+                    finals = None
+                    break
+                snaps = sorted(f for f in os.listdir(d) if f.startswith("snap") and f.endswith(".hdf5"))
+                rc, out, err = vlib.run_exe(SNAP_TOOL[0], "", args=[os.path.join(d, snaps[-1])]) if snaps else (1, "", "")
+                finals[name] = (snaps[-1] if snaps else None, out, sum(1 for l in res["log"].split("\n") if "Starting hydro step " in l))
+            if not finals:
+                continue
+            ctx.branch("restart-twins")
+            ctx.distinct(("restart-twin", layout, cells, k))
+            a, b_ = finals["uninterrupted"], finals["restarted"]
+            stream["lines"] += len(a[1].split())
+            if a[0] is None or a[0] != b_[0] or a[1] != b_[1]:
+                stream["oracle_failures"] += 1
+                ndiff = sum(1 for x, y in zip(a[1].split(), b_[1].split()) if x != y)
+                ctx.violation("restart-twin:final-snapshot-differs", "one thread, same input: the final snapshot (%s) of the run stopped after step %d and restarted differs from the uninterrupted run in %d values (%s)"
+                              % (a[0], k, ndiff, tag), rep)
+            else:
+                ctx.branch("restart-twin-bit-identical")
+        finally:
+            shutil.rmtree(root, ignore_errors=True)
+
+
 def run(ctx):
     ctx.level = "proof"
     ctx.assumptions += [
@@ -408,6 +484,7 @@ def run(ctx):
     ok = ctx.obligations("CMacVerif.Props.C10", ["drv_c10", "drv_c04"])
     ctx.cov["tolerance"] = {"relative_per_face": TOL_PER_FACE, "cap": TOL_CAP}
     ctx.assumptions.append("traced runs serialise the release of the children of a finished task (hook mutex); the untraced stress stream (no CMAC_VERIF_TRACE, H1 yield hook with seeded delays, bias between a thread's pre_decrement and its next load) is a search for schedule dependence, not a proof: it compares the final Gadget snapshot written by the code after ~10-20 steps on 4/8/16 threads with the one-thread run")
+    ctx.assumptions.append("restart twins (one thread, run to the end vs stop after k steps + --restart, final snapshot bit for bit) extend the one-thread reproducibility claim to a state that went through dump and restore; stop/restart as such is C09's property")
     ctx.cov["rule"] = ("for a random global grid (layout 1..3 subgrids/axis x 2..6 cells, periodic / reflective / mixed, smooth / jump / blast / near-vacuum / random states): one real step with "
                        "the layout on 2/4/8 threads, with the undivided 1x1x1 layout on one thread (sequential sweep), with another factorisation of the same grid, with another thread count, and twice with one thread; "
                        "full state dumps (conserved + primitive variables of every cell, cells identified by their midpoints) compared: layouts and thread counts within 1e-13 x faces, the two one-thread runs bit for bit; "
@@ -418,12 +495,41 @@ def run(ctx):
     drv10 = vlib.driver("drv_c10")
     for _ in range(ctx.budget(9, 80)):
         one_case(ctx, binary, drv10, ctx.budget(1200, 3000))
-    stress_stream(ctx, binary, ctx.budget(4, 60), ctx.budget(3, 5))
+    stress_stream(ctx, binary, 60 if ctx.thorough else 4, 5 if ctx.thorough else 3)
+    restart_twins(ctx, binary, 12 if ctx.thorough else 2)
 
 
 def replay(ctx, path):
     obj = json.load(open(path))
     print(json.dumps({k: v for k, v in obj.items() if k not in ("states",)}, indent=1)[:2500])
+    if obj.get("restart_twin"):
+        before = len(ctx.violations)
+        rng_state = ctx.rng.getstate()
+        # re-run exactly this twin
+        class _R:
+            def __init__(self, o): self.o, self.n = o, 0
+            def choice(self, seq):
+                self.n += 1
+                return {1: tuple(self.o["layout"]), 2: tuple(self.o["cells"]), 3: self.o["g"]}.get(self.n, self.o["k"])
+        import os, shutil, tempfile
+        binary = vlib.full_binary()
+        JITTER_LIB[0] = JITTER_LIB[0] or jitter_lib()
+        SNAP_TOOL[0] = SNAP_TOOL[0] or vlib.build_harness("c10_snap")
+        root = tempfile.mkdtemp(prefix="verif_c10r_")
+        outs = []
+        for name, seq in (("uninterrupted", [[]]), ("restarted", [["--number-of-steps", str(obj["k"])], ["--restart", "."]])):
+            d = os.path.join(root, name)
+            os.makedirs(d)
+            open(os.path.join(d, "blocks.yml"), "w").write(obj["blocks"])
+            for args in seq:
+                res = simrun.run_sim(binary, obj["param"], ["--task-based-rhd"] + args, threads=1, timeout=90, trace=False, workdir=d)
+            snaps = sorted(f for f in os.listdir(d) if f.startswith("snap") and f.endswith(".hdf5"))
+            outs.append(vlib.run_exe(SNAP_TOOL[0], "", args=[os.path.join(d, snaps[-1])])[1] if snaps else name)
+        shutil.rmtree(root, ignore_errors=True)
+        nd = sum(1 for x, y in zip(outs[0].split(), outs[1].split()) if x != y)
+        print("values of the final snapshot that differ between the uninterrupted and the restarted run: %d" % nd)
+        print("REPRODUCED" if outs[0] != outs[1] else "not reproduced")
+        return 1 if outs[0] != outs[1] else 0
     if obj.get("stress"):
         binary = vlib.full_binary()
         setup = dict(param=obj["param"], blocks=obj["blocks"], ncell=obj["ncell"], box=obj["box"])
